@@ -53,7 +53,7 @@ def run(ctx):
     kind = ["source", "missing", "refused"][ctx.seed % 3]
     cbase = os.path.join(ctx.scratch, "c21corrupt")
     n0, v0 = len(ctx.failures), ctx.validated
-    res = ctx.drive(ct.PKG, "TestC21", env={"VERIF_TRACE_OUT": cbase, "VERIF_CORRUPT": kind, "VERIF_MAXCASES": 150},
+    res = ctx.drive(ct.PKG, "TestC21", env={"VERIF_TRACE_OUT": cbase, "VERIF_CORRUPT": kind, "VERIF_MAXCASES": 150, "VERIF_TIER": "quick"},
                     label="C21/selftest", timeout=600)
     if res is not None:
         ct.validate(ctx, "TraceResizePlanC21", (res.get("coverage") or {}).get("trace_files") or [], cbase + ".cases",
